@@ -4,6 +4,7 @@
 #include "x_join.c"
 
 void h_split(void) { vvec* ret; const vstr* s; char in_delim; size_t in_max_splits; IN_GHOSTS; split(ret, s, in_delim, in_max_splits); VERIF_REACH(); }
+void h_split_w(void) { vvec* ret; const vstr* s; char in_delim; size_t in_max_splits; IN_GHOSTS; split_w(ret, s, in_delim, in_max_splits); VERIF_REACH(); }
 void h_join_delim(void) { vout* ret; const vsvec* items; char in_delim; IN_GHOSTS; join_delim(ret, items, in_delim); VERIF_REACH(); }
 void h_join_plain(void) { vout* ret; const vsvec* items; IN_GHOSTS; join_plain(ret, items); VERIF_REACH(); }
 
